@@ -38,7 +38,7 @@ class Project(object):
     def list_packages(self, root):
         # type: (str) ->  set[str]
         modules = set()
-        path = self.get_path()
+        path = self.get_search_path(root + '.') if root else self.get_path()
 
         if root:
             droot = root + '.'
